@@ -488,7 +488,7 @@ Proof.
     destruct (N.lt_ge_cases b (m_next m)) as [Hlt|Hle]; [assumption|].
     pose proof (Hb nb b Hnb') as Hg. rewrite (Hf b Hle) in Hg. discriminate. }
   unfold extend in H. destruct (extend_x fuel m s doc) as [res0| |] eqn:Hx; try discriminate.
-  unfold extend_x in Hx. cbv zeta in Hx. destruct (negb (collect_ok m s (normalise doc))); [discriminate|].
+  unfold extend_x in Hx. destruct (negb (collect_ok m s doc)); [discriminate|].
   set (lo := m_next m) in *.
   set (olds := old_entries m s) in *.
   destruct (reserve m _) as [m1 plan_old] eqn:R1. destruct (reserve m1 _) as [m2 plan_new] eqn:R2.
